@@ -181,6 +181,9 @@ func Random(seed int64, idx int, opt RandOpt) *Entry {
 				}
 				usedEmbed[ref] = true
 				fl = F(g.name(), MsgT(ref), NonNull(), Embed())
+				if r.Intn(2) == 0 {
+					EmbedTag("e_" + snake(ref) + ",omitempty")(fl)
+				}
 			case c < 19:
 				// nullable embed of the flat message (primitive children only)
 				if usedEmbed[flatName] {
@@ -429,7 +432,8 @@ func randFieldOptions(r *rand.Rand, f *ir.File, c *ir.Config) {
 	}
 	if r.Intn(2) == 0 {
 		c.InjectedFields = map[string][]ir.Injected{}
-		c.InjectedFields[c.Types[0]] = []ir.Injected{{Name: "injected_id", Type: "github.com/hashicorp/terraform-plugin-framework/types.StringType", Computed: true}}
+		// any exported type may carry injected attributes (also one that occurs below another exported type)
+		c.InjectedFields[c.Types[r.Intn(len(c.Types))]] = []ir.Injected{{Name: "injected_id", Type: "github.com/hashicorp/terraform-plugin-framework/types.StringType", Computed: true}}
 		for _, o := range occ {
 			if o.Field.Kind == ir.KMessage && o.Field.CustomType == "" && r.Intn(4) == 0 {
 				c.InjectedFields[o.Path] = []ir.Injected{{Name: "injected_extra", Type: "github.com/hashicorp/terraform-plugin-framework/types.Int64Type", Optional: true,
